@@ -221,6 +221,49 @@ def session_scenarios(ctx, rng, cov):
                 res.append(("malformed:" + kind, "", decoded, o, bytes(mb)))
             for o in outs[1:2]:
                 res.append(("after-malformed", "", version_of_request(good[0][0]), o, follow))
+        # 5. answers the engine builds and the encoder may refuse (e.g. an attribute listing that comes out empty under a
+        # version whose payload insists on content): batches of reads naming attributes the object does not have,
+        # alone and in company, every version, both batch options - whatever the session sends instead follows the envelope
+        absent = ["Lease Time", "Contact Information", "Digest", "Link", "Process Start Date", "x-custom", "Archive Date"]
+        first = None
+        for v in (10, 11, 12, 13, 14, 20):
+            mk = {"version": v, "ts": None, "async": None, "bopt": None, "maxsize": None,
+                  "items": [{"op": "create", "bid": None, "crypto": None, "otype": 2,
+                             "tmpl": {"tnames": 0, "attrs": [
+                                 {"name": "Cryptographic Algorithm", "index": None, "value": {"k": "enum", "v": 3}},
+                                 {"name": "Cryptographic Length", "index": None, "value": {"k": "int", "v": 128}},
+                                 {"name": "Cryptographic Usage Mask", "index": None, "value": {"k": "int", "v": 12}}]}}]}
+            try:
+                o = rig.run(IC.enc(impl_engine.build_request(mk), IC.vof("%d.%d" % (v // 10, v % 10))), alice)
+                m = IC.messages.ResponseMessage()
+                m.read(IC.utils.BytearrayStream(o[0]), kmip_version=IC.vof("%d.%d" % (v // 10, v % 10)))
+                uid = m.batch_items[0].response_payload.unique_identifier
+                uid = getattr(uid, "value", uid)
+            except Exception:
+                note("unencodable_setup_failed")
+                continue
+            ga = lambda names, bid=None: {"op": "getAttributes", "bid": bid, "crypto": None, "uid": uid, "names": names}
+            other = [{"op": "get", "bid": "g", "crypto": None, "uid": uid, "wrap": None, "format": None, "compression": False},
+                     {"op": "getAttributeList", "bid": "l", "crypto": None, "uid": uid},
+                     {"op": "activate", "bid": "a", "crypto": None, "uid": "no-such"}]
+            batches = [[ga([rng.choice(absent)])], [ga(rng.sample(absent, 2))], [ga([absent[0]], "x"), ga([absent[1]], "y")],
+                       [other[0], ga([rng.choice(absent)], "x")], [ga([rng.choice(absent)], "x"), other[1]],
+                       [other[1], ga([rng.choice(absent)], "x"), other[0]], [other[2], ga([rng.choice(absent)], "x")],
+                       [ga([rng.choice(absent)], "x"), other[2], other[0]]]
+            for items in batches:
+                for bopt in (None, 1, 2) if len(items) > 1 else (None,):
+                    rq = {"version": v, "ts": None, "async": None, "bopt": bopt, "maxsize": None, "items": items}
+                    try:
+                        b = IC.enc(impl_engine.build_request(rq), IC.vof("%d.%d" % (v // 10, v % 10)))
+                    except Exception:
+                        note("unencodable_request_build_failed")
+                        continue
+                    outs = rig.run(b, alice)
+                    if len(outs) != 1:
+                        note("unencodable_response_count_%d" % len(outs))
+                        continue
+                    note("reads_of_absent_attributes")
+                    res.append(("reads-of-absent-attributes", ",".join(it["op"] for it in items)[:60], version_of_request(rq), outs[0], b))
         # 4. authentication failures
         certs = [("no-cert", None), ("eku-absent", IC.make_cert(("alice",), None)),
                  ("eku-server", IC.make_cert(("alice",), "server")), ("two-cns", IC.make_cert(("a", "b"), "client")),
